@@ -86,16 +86,16 @@ macro_rules! add {
 pub fn registry() -> Vec<TypeEntry> {
     let mut v: Vec<TypeEntry> = Vec::new();
     add!(v, "Vector1", Vector1<f32>, Vector1<f64>, Vector1<i32>, Vector1<u8>, Vector1<i64>, Vector1<u64>);
-    add!(v, "Vector2", Vector2<f32>, Vector2<f64>, Vector2<i32>, Vector2<u8>, Vector2<i64>, Vector2<u64>);
-    add!(v, "Vector3", Vector3<f32>, Vector3<f64>, Vector3<i32>, Vector3<u8>, Vector3<i64>, Vector3<u64>, Vector3<i8>, Vector3<i16>, Vector3<u16>, Vector3<u32>);
+    add!(v, "Vector2", Vector2<f32>, Vector2<f64>, Vector2<i32>, Vector2<u8>, Vector2<i64>, Vector2<u64>, Vector2<u128>, Vector2<isize>);
+    add!(v, "Vector3", Vector3<f32>, Vector3<f64>, Vector3<i32>, Vector3<u8>, Vector3<i64>, Vector3<u64>, Vector3<i8>, Vector3<i16>, Vector3<u16>, Vector3<u32>, Vector3<isize>, Vector3<usize>, Vector3<i128>, Vector3<u128>);
     add!(v, "Vector4", Vector4<f32>, Vector4<f64>, Vector4<i32>, Vector4<u8>, Vector4<i64>, Vector4<u64>);
     add!(v, "Point1", Point1<f32>, Point1<f64>, Point1<i32>, Point1<u8>, Point1<i64>, Point1<u64>);
     add!(v, "Point2", Point2<f32>, Point2<f64>, Point2<i32>, Point2<u8>, Point2<i64>, Point2<u64>);
-    add!(v, "Point3", Point3<f32>, Point3<f64>, Point3<i32>, Point3<u8>, Point3<i64>, Point3<u64>);
-    add!(v, "Matrix2", Matrix2<f32>, Matrix2<f64>, Matrix2<i32>);
+    add!(v, "Point3", Point3<f32>, Point3<f64>, Point3<i32>, Point3<u8>, Point3<i64>, Point3<u64>, Point3<i128>, Point3<usize>);
+    add!(v, "Matrix2", Matrix2<f32>, Matrix2<f64>, Matrix2<i32>, Matrix2<isize>, Matrix2<u128>);
     add!(v, "Matrix3", Matrix3<f32>, Matrix3<f64>, Matrix3<i32>);
     add!(v, "Matrix4", Matrix4<f32>, Matrix4<f64>, Matrix4<i32>);
-    add!(v, "Quaternion", Quaternion<f32>, Quaternion<f64>, Quaternion<i32>);
+    add!(v, "Quaternion", Quaternion<f32>, Quaternion<f64>, Quaternion<i32>, Quaternion<usize>, Quaternion<i128>, Quaternion<u128>);
     add!(v, "Rad", Rad<f32>, Rad<f64>);
     add!(v, "Deg", Deg<f32>, Deg<f64>);
     add!(v, "Euler", Euler<Rad<f32>>, Euler<Rad<f64>>, Euler<Deg<f32>>, Euler<Deg<f64>>);
@@ -126,6 +126,8 @@ pub fn registry() -> Vec<TypeEntry> {
         Decomposed<Vector3<i16>, Point3<i16>>,
         Decomposed<Vector3<f64>, Quaternion<f32>>,
         Decomposed<Vector4<f32>, Matrix3<f64>>,
+        Decomposed<Vector3<i128>, Quaternion<i128>>,
+        Decomposed<Vector2<usize>, Vector2<usize>>,
     );
 
     // fault-free probes: how many steps each direction takes, and where the records are
@@ -179,5 +181,7 @@ pub fn small_value(k: Kind, n: i64) -> u64 {
         Kind::U32 => (n.unsigned_abs() as u32) as u64,
         Kind::U64 => n.unsigned_abs(),
         Kind::Bool => (n & 1) as u64,
+        Kind::I128 => n as u64,
+        Kind::U128 => n.unsigned_abs(),
     }
 }
